@@ -192,3 +192,187 @@ Section Scans.
     split; [exact Hs'|]. split; [lia|]. split; [exact Hall|]. intros Hlt. apply Hstop. lia.
   Qed.
 End Scans.
+
+(* ------------------------------------------------------------------ doPivot *)
+Section Pivot.
+  Context {K V : Type}.
+  Variable less : K -> K -> bool.
+  Hypothesis less_irrefl : forall x, less x x = false.
+  Hypothesis less_trans : forall x y z, less x y = true -> less y z = true -> less x z = true.
+  Notation ST := (srt_state K V).
+
+  Lemma srt_less_asym x y : less x y = true -> less y x = false.
+  Proof.
+    intros H. destruct (less y x) eqn:E; [|reflexivity].
+    pose proof (less_trans _ _ _ H E) as C. rewrite less_irrefl in C. discriminate.
+  Qed.
+
+  (* what a swap does to the keys, as a function of the index *)
+  Lemma srt_inv_swap_keys i j (s : ST) u s' :
+    srt_swap i j s = SOk (u, s') ->
+    exists x y, srt_zget (st_keys s) i = Some x /\ srt_zget (st_keys s) j = Some y /\
+                srt_zget (st_keys s') i = Some y /\ srt_zget (st_keys s') j = Some x /\
+                (forall k, k <> i -> k <> j -> srt_zget (st_keys s') k = srt_zget (st_keys s) k).
+  Proof. apply srt_inv_swap. Qed.
+
+  (* medianOfThree_func(data, m1, m0, m2) on three different indices: afterwards
+     data[m1] is not after data[m2] (it also holds data[m0] <= data[m1]; not needed) *)
+  Lemma srt_median3_order m1 m0 m2 (s : ST) u s' :
+    m1 <> m0 -> m1 <> m2 -> m0 <> m2 ->
+    srt_median3 less m1 m0 m2 s = SOk (u, s') ->
+    exists x y, srt_zget (st_keys s') m1 = Some x /\ srt_zget (st_keys s') m2 = Some y /\
+                less y x = false.
+  Proof.
+    intros N10 N12 N02 E. unfold srt_median3 in E.
+    apply srt_inv_bind in E. destruct E as (t1 & s1 & E1 & E).
+    apply srt_inv_less in E1. destruct E1 as (a1 & a0 & Ha1 & Ha0 & -> & Hk1 & _).
+    apply srt_inv_bind in E. destruct E as (u2 & s2 & E2 & E).
+    (* after the first step: v0 at m0, v1 at m1 with v0 <= v1 *)
+    assert (S2 : exists v0 v1, srt_zget (st_keys s2) m0 = Some v0 /\ srt_zget (st_keys s2) m1 = Some v1 /\
+                   less v1 v0 = false /\
+                   srt_zget (st_keys s2) m2 = srt_zget (st_keys s) m2).
+    { destruct (less a1 a0) eqn:L1.
+      - apply srt_inv_swap in E2. rewrite Hk1 in E2.
+        destruct E2 as (x & y & Hx & Hy & Hn1 & Hn0 & Hoth).
+        rewrite Ha1 in Hx. injection Hx as <-. rewrite Ha0 in Hy. injection Hy as <-.
+        exists a1, a0. split; [exact Hn0|]. split; [exact Hn1|]. split; [apply srt_less_asym; exact L1|].
+        apply Hoth; congruence.
+      - apply srt_inv_ret in E2. destruct E2 as [_ <-]. rewrite Hk1.
+        exists a0, a1. auto. }
+    destruct S2 as (v0 & v1 & Hv0 & Hv1 & L01 & Hm2).
+    apply srt_inv_bind in E. destruct E as (t3 & s3 & E3 & E).
+    apply srt_inv_less in E3. destruct E3 as (v2 & v1' & Hv2 & Hv1' & -> & Hk3 & _).
+    rewrite Hv1 in Hv1'. injection Hv1' as <-.
+    destruct (less v2 v1) eqn:L21.
+    - apply srt_inv_bind in E. destruct E as (u4 & s4 & E4 & E).
+      apply srt_inv_swap in E4. rewrite Hk3 in E4.
+      destruct E4 as (x & y & Hx & Hy & Hn2 & Hn1 & Hoth).
+      rewrite Hv2 in Hx. injection Hx as <-. rewrite Hv1 in Hy. injection Hy as <-.
+      assert (Hn0 : srt_zget (st_keys s4) m0 = Some v0) by (rewrite Hoth by congruence; exact Hv0).
+      apply srt_inv_bind in E. destruct E as (t5 & s5 & E5 & E).
+      apply srt_inv_less in E5. destruct E5 as (x & y & Hx & Hy & -> & Hk5 & _).
+      rewrite Hn1 in Hx. injection Hx as <-. rewrite Hn0 in Hy. injection Hy as <-.
+      destruct (less v2 v0) eqn:L20.
+      + apply srt_inv_swap in E. rewrite Hk5 in E.
+        destruct E as (x & y & Hx & Hy & Hf1 & Hf0 & Hoth2).
+        rewrite Hn1 in Hx. injection Hx as <-. rewrite Hn0 in Hy. injection Hy as <-.
+        exists v0, v1. split; [exact Hf1|]. split; [rewrite Hoth2 by congruence; exact Hn2|exact L01].
+      + apply srt_inv_ret in E. destruct E as [_ <-]. rewrite Hk5.
+        exists v2, v1. split; [exact Hn1|]. split; [exact Hn2|apply srt_less_asym; exact L21].
+    - apply srt_inv_ret in E. destruct E as [_ <-]. rewrite Hk3.
+      exists v1, v2. auto.
+  Qed.
+
+  (* zones relative to the pivot value p *)
+  Variable p : K.
+  Definition srt_ltp (x : K) : Prop := less x p = true.     (* x before p *)
+  Definition srt_lep (x : K) : Prop := less p x = false.    (* x not after p *)
+  Definition srt_gtp (x : K) : Prop := less p x = true.     (* x after p *)
+  Definition srt_gep (x : K) : Prop := less x p = false.    (* x not before p *)
+  Definition srt_eqp (x : K) : Prop := srt_lep x /\ srt_gep x.
+
+  Lemma srt_ltp_lep x : srt_ltp x -> srt_lep x.
+  Proof. apply srt_less_asym. Qed.
+  Lemma srt_gtp_gep x : srt_gtp x -> srt_gep x.
+  Proof. apply srt_less_asym. Qed.
+  Lemma srt_eqp_p : srt_eqp p.
+  Proof. split; apply less_irrefl. Qed.
+
+  (* main partition loop.  Before: keys[a,b) <= p, keys[c,hi1) > p, pivot at lo < a.
+     After: the two indices have met, only [b,c) was touched, the zones have grown. *)
+  Lemma srt_part_loop_inv lo hi1 a : forall fuel b c (s : ST) b' c' s',
+    lo < a -> a <= b -> b <= c -> c <= hi1 ->
+    srt_zget (st_keys s) lo = Some p ->
+    srt_all_on srt_lep (st_keys s) a b -> srt_all_on srt_gtp (st_keys s) c hi1 ->
+    srt_part_loop less fuel lo b c s = SOk ((b', c'), s') ->
+    b' = c' /\ b <= b' /\ c' <= c /\
+    (forall k, k < b \/ c <= k -> srt_zget (st_keys s') k = srt_zget (st_keys s) k) /\
+    srt_all_on srt_lep (st_keys s') a b' /\ srt_all_on srt_gtp (st_keys s') c' hi1.
+  Proof.
+    induction fuel as [|f IH]; intros b c s b' c' s' Hlo Hab Hbc Hc Hp ZL ZG E;
+      cbn [srt_part_loop] in E; [discriminate|].
+    apply srt_inv_bind in E. destruct E as (b1 & s1 & E1 & E).
+    destruct (srt_scan_up_inv less _ _ _ _ _ _ _ _ (srt_cond_nless_r less _ lo p Hp) eq_refl E1)
+      as (Hk1 & Hb1 & A1 & Stop1).
+    apply srt_inv_bind in E. destruct E as (c1 & s2 & E2 & E).
+    destruct (srt_scan_down_inv less _ _ _ _ _ _ _ _ (srt_cond_less_r less _ lo p Hp) Hk1 E2)
+      as (Hk2 & Hc1 & A2 & Stop2).
+    assert (ZL1 : srt_all_on srt_lep (st_keys s) a b1).
+    { eapply srt_all_on_app; [exact ZL|]. eapply srt_all_on_impl; [|exact A1].
+      unfold srt_lep. intros x Hx. apply negb_true_iff in Hx. exact Hx. }
+    assert (ZG1 : srt_all_on srt_gtp (st_keys s) c1 hi1).
+    { eapply srt_all_on_app; [|exact ZG]. exact A2. }
+    destruct (Z.leb_spec c1 b1) as [Hmeet|Hgo].
+    - apply srt_inv_ret in E. destruct E as [E <-]. injection E as <- <-. rewrite Hk2.
+      split; [lia|]. split; [lia|]. split; [lia|]. split; [reflexivity|]. split; assumption.
+    - destruct Stop1 as (x & Hx & Fx); [lia|]. apply negb_false_iff in Fx.
+      destruct Stop2 as (y & Hy & Fy); [lia|].
+      assert (Hne : b1 <> c1 - 1).
+      { intros Heq. rewrite <- Heq in Hy. rewrite Hx in Hy. injection Hy as <-. congruence. }
+      apply srt_inv_bind in E. destruct E as (u3 & s3 & E3 & E).
+      apply srt_inv_swap in E3. rewrite Hk2 in E3.
+      destruct E3 as (x' & y' & Hx' & Hy' & Hnb & Hnc & Hoth).
+      rewrite Hx in Hx'. injection Hx' as <-. rewrite Hy in Hy'. injection Hy' as <-.
+      destruct (IH (b1 + 1) (c1 - 1) s3 b' c' s') as (R1 & R2 & R3 & R4 & R5 & R6); try lia; try exact E.
+      + rewrite Hoth by lia. exact Hp.
+      + eapply srt_all_on_snoc; [|exact Hnb|exact Fy].
+        eapply srt_all_on_eq; [|exact ZL1]. intros k Hk. apply Hoth; lia.
+      + eapply srt_all_on_cons; [|exact Hnc|exact Fx].
+        eapply srt_all_on_eq; [|exact ZG1]. intros k Hk. apply Hoth; lia.
+      + split; [exact R1|]. split; [lia|]. split; [lia|]. split; [|split; assumption].
+        intros k Hk. rewrite R4 by lia. apply Hoth; lia.
+  Qed.
+
+  (* protect loop.  Before: keys[a,b) <= p, pivot at lo < a.  After: only [a,b) was
+     touched, keys[a,r) < p and keys[r,b) equivalent to p. *)
+  Lemma srt_prot_loop_inv lo : forall fuel a b (s : ST) r s',
+    lo < a -> a <= b ->
+    srt_zget (st_keys s) lo = Some p ->
+    srt_all_on srt_lep (st_keys s) a b ->
+    srt_prot_loop less fuel lo a b s = SOk (r, s') ->
+    a <= r <= b /\
+    (forall k, k < a \/ b <= k -> srt_zget (st_keys s') k = srt_zget (st_keys s) k) /\
+    srt_all_on srt_ltp (st_keys s') a r /\ srt_all_on srt_eqp (st_keys s') r b.
+  Proof.
+    induction fuel as [|f IH]; intros a b s r s' Hlo Hab Hp ZL E;
+      cbn [srt_prot_loop] in E; [discriminate|].
+    apply srt_inv_bind in E. destruct E as (b1 & s1 & E1 & E).
+    destruct (srt_scan_down_inv less _ _ _ _ _ _ _ _ (srt_cond_nless_l less _ lo p Hp) eq_refl E1)
+      as (Hk1 & Hb1 & A1 & Stop1).
+    apply srt_inv_bind in E. destruct E as (a1 & s2 & E2 & E).
+    destruct (srt_scan_up_inv less _ _ _ _ _ _ _ _ (srt_cond_less_l less _ lo p Hp) Hk1 E2)
+      as (Hk2 & Ha1 & A2 & Stop2).
+    assert (ZE1 : srt_all_on srt_eqp (st_keys s) b1 b).
+    { apply srt_all_on_and; [eapply srt_all_on_sub; [| |exact ZL]; lia|].
+      eapply srt_all_on_impl; [|exact A1].
+      unfold srt_gep. intros x Hx. apply negb_true_iff in Hx. exact Hx. }
+    destruct (Z.leb_spec b1 a1) as [Hmeet|Hgo].
+    - apply srt_inv_ret in E. destruct E as [<- <-]. rewrite Hk2.
+      split; [lia|]. split; [reflexivity|]. split; [|exact ZE1].
+      eapply srt_all_on_sub; [| |exact A2]; lia.
+    - destruct Stop1 as (y & Hy & Fy); [lia|]. apply negb_false_iff in Fy.
+      destruct Stop2 as (x & Hx & Fx); [lia|].
+      assert (Hne : a1 <> b1 - 1).
+      { intros Heq. rewrite <- Heq in Hy. rewrite Hx in Hy. injection Hy as <-. congruence. }
+      assert (Ex : srt_eqp x) by (split; [apply (ZL a1 x); [lia|exact Hx]|exact Fx]).
+      apply srt_inv_bind in E. destruct E as (u3 & s3 & E3 & E).
+      apply srt_inv_swap in E3. rewrite Hk2 in E3.
+      destruct E3 as (x' & y' & Hx' & Hy' & Hna & Hnb & Hoth).
+      rewrite Hx in Hx'. injection Hx' as <-. rewrite Hy in Hy'. injection Hy' as <-.
+      destruct (IH (a1 + 1) (b1 - 1) s3 r s') as (R1 & R2 & R3 & R4); try lia; try exact E.
+      + rewrite Hoth by lia. exact Hp.
+      + eapply srt_all_on_eq; [|eapply srt_all_on_sub; [| |exact ZL]]; [|lia|lia].
+        intros k Hk. apply Hoth; lia.
+      + split; [lia|]. split; [|split].
+        * intros k Hk. rewrite R2 by lia. apply Hoth; lia.
+        * eapply srt_all_on_app with (v := a1 + 1); [|exact R3].
+          eapply srt_all_on_snoc; [| |exact Fy].
+          -- eapply srt_all_on_eq; [|exact A2]. intros k Hk. rewrite R2 by lia. apply Hoth; lia.
+          -- rewrite R2 by lia. exact Hna.
+        * eapply srt_all_on_app with (v := b1 - 1); [exact R4|].
+          replace b1 with (b1 - 1 + 1) at 2 by lia. eapply srt_all_on_app with (v := b1 - 1 + 1).
+          -- eapply srt_all_on_one; [|exact Ex]. rewrite R2 by lia. exact Hnb.
+          -- replace (b1 - 1 + 1) with b1 by lia.
+             eapply srt_all_on_eq; [|exact ZE1]. intros k Hk. rewrite R2 by lia. apply Hoth; lia.
+  Qed.
+End Pivot.
